@@ -558,6 +558,28 @@ def ledger_extra(pid, inner=None):
     return extra
 
 
+def pool_extra(pid, inner=None):
+    """Action-level correspondence of PoolProto.v with the real Pool (harness `pool`, driver poolcorr.py): reader threads
+    stopped at the point inside Buffer::add, batches handed over and buffers compared with the model after every step."""
+    def extra(ctx, res, allsched, impl):
+        import random
+        import poolcorr
+        if inner:
+            inner(ctx, res, allsched, impl)
+        if ctx.get("replay"):
+            return
+        rng = random.Random(ctx["seed"] + 1979)
+        cases = poolcorr.gen_cases(rng, 250 if ctx["tier"] == "quick" else 5000)
+        divs, fails, stats = poolcorr.compare(ctx["binary"], cases, pid + "_pool")
+        res["divergences"] += divs[:3]
+        res["failures"] += fails[:3]
+        res["evaluations"] += stats["steps"]
+        res["traces"] += stats["cases"]
+        res["extra"]["pool_action_level"] = stats
+        res["rule"] += "; plus %d action-level pool cases (%d steps of Pool::add on the real pool with readers stopped holding a buffer lock, %d waits for a held lock; batches and buffers compared with PoolProto.v after each)" % (stats["cases"], stats["steps"], stats["waited_for_the_lock"])
+    return extra
+
+
 def window_extra(pid, inner=None, monitor=False):
     """Schedules with overtaking (a put_or_update stopped between its store update and its index update, the worker stopped
     between the store insert and the index registration of a put with time-to-live, other events in between), run on the
@@ -735,7 +757,7 @@ PROPS.update({
                 assumptions=["each access to status / waker slot is one atomic action because it happens under its parking_lot mutex; Release/Acquire on the flag is modelled as sequentially consistent"]),
     "C13": dict(module="C13", modules=["C13", "C13_micro"], run=mk("C13", ["shutdown", "queue1", "general"], 250, 4000, extra=micro_extra("C13", profiles=("shutdown", "queue1", "general"))), components=["api", "queue_worker", "pool", "store", "weights", "ticker", "roles"],
                 assumptions=["partial: 'shutdown() returns' and 'every acknowledgement completes' are proved as enabledness/progress facts of the model; that the worker and consumer threads keep being scheduled is assumed"]),
-    "C15": dict(module="C15", modules=["C15", "C15_pool", "C15_micro"], run=mk("C15", ["reads", "evict", "general"], 250, 4000, extra=micro_extra("C15", stress_quiescent_extra("C15"), profiles=("reads", "general", "shutdown"))), components=["pool", "stats", "tinylfu", "api"],
+    "C15": dict(module="C15", modules=["C15", "C15_pool", "C15_micro"], run=mk("C15", ["reads", "evict", "general"], 250, 4000, extra=micro_extra("C15", pool_extra("C15", stress_quiescent_extra("C15")), profiles=("reads", "general", "shutdown"))), components=["pool", "stats", "tinylfu", "api"],
                 assumptions=["partial: 'never blocks' is enabledness in the model; that crossbeam's select!{send, default} does not block is exercised with a gated (stalled) and an exited consumer, not proved"]),
     "C17": dict(module="C17", modules=["C17", "C17_precond"], run=mk("C17", ["boundary", "general", "ttl", "queue1"], 300, 5000, extra=kernel_extra("C17", ["config_accepted", "upsert_accepted"], release_extra("C17", stress2_extra("C17", "upserts")))), components=["preconditions", "panics", "roles", "api", "store", "weights", "admission", "ticker", "sketch", "tinylfu", "queue_worker", "time", "pool"],
                 assumptions=["partial: covers the panic sites the model represents (assert!/unwrap/expect/index operations/i64 overflow under the debug profile/SystemTime addition); allocation failure, thread spawn failure and panics inside dependencies are not modelled",
